@@ -35,6 +35,25 @@ theorem mem_postorder : ∀ (t : Tree) (i : Nat), i ∈ postorder t ↔ i ∈ in
     · rintro ((h | h) | h) <;> simp [h]
     · rintro (h | h | h) <;> simp [h]
 
+theorem perm_preorder : ∀ t : Tree, (preorder t).Perm (inorder t)
+  | .nil => .refl _
+  | .node l x r => by
+    simp only [preorder, inorder]
+    have := (perm_preorder l).append (perm_preorder r)
+    exact (List.Perm.cons x this).trans List.perm_middle.symm
+
+theorem perm_postorder : ∀ t : Tree, (postorder t).Perm (inorder t)
+  | .nil => .refl _
+  | .node l x r => by
+    simp only [postorder, inorder]
+    have := (perm_postorder l).append (perm_postorder r)
+    have h2 : (postorder l ++ postorder r ++ [x]).Perm (x :: (postorder l ++ postorder r)) := by
+      simpa using (List.perm_append_comm (l₁ := postorder l ++ postorder r) (l₂ := [x]))
+    exact h2.trans ((List.Perm.cons x this).trans List.perm_middle.symm)
+
+theorem nodup_preorder (t : Tree) (d : Distinct t) : (preorder t).Nodup := (perm_preorder t).nodup_iff.mpr d
+theorem nodup_postorder (t : Tree) (d : Distinct t) : (postorder t).Nodup := (perm_postorder t).nodup_iff.mpr d
+
 /-- the parts of a tree with distinct ids -/
 structure DistinctNode (l : Tree) (x : Nat) (r : Tree) : Prop where
   left : Distinct l
